@@ -68,6 +68,11 @@ STDLIB = ["textwrap", "json", "shlex", "fnmatch", "glob", "heapq", "bisect", "ke
           "wsgiref", "importlib", "email", "unittest", "asyncio", "concurrent", "logging", "xml", "sqlite3", "collections",
           "argparse", "ast", "inspect", "typing", "pathlib", "ipaddress", "decimal"]
 ADDR = re.compile(r"0x[0-9a-fA-F]{6,}")
+SETREPR = re.compile(r"(frozenset\(\{|\{)((?:'[^'\\\"{}]*'|[-\w.]+)(?:, (?:'[^'\\\"{}]*'|[-\w.]+))+)(\}\)|\})")
+
+
+def _sorted_set_repr(m: re.Match) -> str:
+    return m.group(1) + ", ".join(sorted(m.group(2).split(", "))) + m.group(3)
 
 ID_LINENO = "C08-decode-missing-lineno"
 ID_FILEPATH = "C08-decode-module-filepath-not-a-string"
@@ -689,6 +694,9 @@ def run_cli(rec, case: dict) -> None:  # noqa: ANN001, C901, PLR0912
             stats = dump_stats(json.loads(expected))
             nontrivial = len(stats["kinds"]) >= 3 and stats["aliases"] >= 1 and len(stats["classes"]) >= 3
             a, b = ADDR.sub("0xADDR", expected), ADDR.sub("0xADDR", text)
+            # reprs of set / frozenset values of *inspected* attributes depend on the hash seed of the process that imported
+            # the module (the CLI child deliberately runs under another PYTHONHASHSEED): compare them as sorted element lists
+            a, b = SETREPR.sub(_sorted_set_repr, a), SETREPR.sub(_sorted_set_repr, b)
             if a != b:
                 d = first_difference(a, b)
                 rec.fail(case, "griffe dump output differs from json.dumps(collection.members, cls=JSONEncoder, indent=2, sort_keys=True)",
@@ -712,7 +720,7 @@ def shards(tier: str, seed: int) -> list[dict]:
             "builtins": [BUILTINS[i % len(BUILTINS)]],
             "stdlib": [STDLIB[(2 * i + k) % len(STDLIB)] for k in range(2)] if quick else [STDLIB[(3 * i + k) % len(STDLIB)] for k in range(3)],
             "own": (["griffe"] if i == 0 else ["_griffe"] if i == 1 else []),
-            "cli": 6 if quick else 50, "depth": 2 if quick else 3, "index": i,
+            "cli": 6 if quick else 50, "depth": 2 if quick else 3, "index": i, "structural_pkgs": 12 if quick else 250,
         })
     return out
 
@@ -726,6 +734,19 @@ def generated_cases(rng: random.Random, spec: dict, uid: str):  # noqa: ANN201
         for resolve in (False, True):
             yield {"kind": "files", "source": "static-rich", "roots": [files], "package": name, "agent": "static", "resolve": resolve,
                    "implicit": rng.random() < 0.5}
+    # structural modules of the C01 generator (duplicates, forwarded docstrings, wrappers, instance attributes, overloads,
+    # property setters) as one-module packages
+    from vf.gen.modules import Gen
+
+    for i in range(spec.get("structural_pkgs", 0)):
+        name = f"vm{uid}_{i}"
+        src = Gen(rng, dup_prob=rng.choice([0.3, 0.5])).module()
+        try:
+            compile(src, "<c08>", "exec")
+        except SyntaxError:
+            continue
+        yield {"kind": "files", "source": "static-structural", "roots": [{f"{name}/__init__.py": src}], "package": name,
+               "agent": "static", "resolve": False, "implicit": False}
     for i in range(spec["importable_pkgs"]):
         name = f"vi{uid}_{i}"
         files, feats = rich_modules.gen_package(rng, name, flavour="importable", depth=rng.randint(1, depth))
